@@ -13,7 +13,7 @@ TRUSTED = [
     "Coq 8.16.1 kernel + vm_compute; theorems in coq/Props/C01.v (Print Assumptions: closed under the global context)",
     "hand-written Gallina models Model/Binary.v (serializers.h/_binary.py/binary.md), Model/CodedCpp.v (coded_stream.h), Model/CodedPy.v (_binary.py coded streams) and Model/PyTyped.v (the serializer classes of _binary.py as programs over the coded stream), tied to the code by differential execution on generated packages and op scripts and, for PyTyped, by comparing call by call with the calls a spying CodedOutputStream records while generated Python writes (harness/py/gen_runner.py, class Spy)",
     "harness: package/value generators, reference encoder (re-checked against Model.Binary.enc inside Coq on every case), C++ shims for xtensor/date (shims/), g++ 12, CPython 3.11 + numpy (python3-vt)",
-    "Model/ZigZagBits.v transcribes the shift/xor zig-zag expressions of coded_stream.h, _binary.py and the MATLAB coded streams; zigzag_text_tie compares the texts on every run (C / Python / MATLAB operator semantics on fixed-width and unbounded integers are as modelled: arithmetic right shift of negatives, unsigned wrap-around)",
+    "Model/ZigZagBits.v (and Model/VarintBits.v for the varint writer loops) transcribes the shift/xor zig-zag expressions of coded_stream.h, _binary.py and the MATLAB coded streams; zigzag_text_tie compares the texts on every run (C / Python / MATLAB operator semantics on fixed-width and unbounded integers are as modelled: arithmetic right shift of negatives, unsigned wrap-around)",
     "C++ object layout behind IsTriviallySerializable (memcpy = field concatenation) is an assumption validated only by the differential runs",
 ]
 
@@ -636,6 +636,43 @@ ZZ_TEXT = {   # the expressions Model/ZigZagBits.v transcribes (whitespace-norma
 }
 
 
+VARINT_TEXT = {   # the loops Model/VarintBits.v transcribes (whitespace-normalised)
+    "cpp:WriteVarInt": "while (value > 0x7F) { *buffer_ptr_++ = static_cast<uint8_t>(value) | 0x80; value >>= 7; } "
+                       "*buffer_ptr_++ = static_cast<uint8_t>(value);",
+    "py:write_unsigned_varint": "int_val = int(value) # bitwise ops not supported on numpy types while True: if int_val < 0x80: "
+                                "self.write_byte_no_check(int_val) return self.write_byte_no_check((int_val & 0x7F) | 0x80) int_val >>= 7",
+}
+
+
+def varint_text_tie(ctx):
+    """translator-level tie of Model.VarintBits (theorems C01_varint_bits_*): the varint writer loops of coded_stream.h and
+    _binary.py are the transcribed ones.  A behavioural change is found by the writer layers that follow (they drive the real
+    CodedOutputStream classes and compare bytes), so a text difference alone is reported without an input."""
+    import re
+    from vlib import REPO
+    base = os.path.join(REPO, "tooling", "internal")
+    norm = lambda t: " ".join(t.split())
+    found = {}
+    try:
+        cpp = open(os.path.join(base, "cpp", "include", "detail", "binary", "coded_stream.h")).read()
+        m = re.search(r"  void WriteVarInt\(T value\) \{\n(.*?)\n  \}\n", cpp, re.S)
+        if m:
+            found["cpp:WriteVarInt"] = norm(m.group(1))
+        py = open(os.path.join(base, "python", "static_files", "_binary.py")).read()
+        m = re.search(r"    def write_unsigned_varint\(.*?\) -> None:\n.*?self\.flush\(\)\n(.*?)\n\n    def ", py, re.S)
+        if m:
+            found["py:write_unsigned_varint"] = norm(m.group(1))
+    except OSError as e:
+        found = {"error": str(e)}
+    for key, want in VARINT_TEXT.items():
+        got = found.get(key)
+        ctx.count("varint_text", "as modelled" if got == want else "different")
+        if got != want:
+            ctx.report("varint-text:" + key, "the text of %s is not the loop Model.VarintBits transcribes" % key,
+                       {"found": got, "modelled": want,
+                        "broken": "correspondence Model.VarintBits vs %s (theorems C01_varint_bits_*)" % key}, no_input=True)
+
+
 def zigzag_text_tie(ctx):
     """translator-level tie of Model.ZigZagBits: the shift/mask/xor expressions of the three runtimes are the ones the model
     transcribes (theorems C01_zigzag_bits_*).  When the Python text differs its return expression is evaluated on edge integers
@@ -703,6 +740,7 @@ def run(ctx):
         ctx.report("proof:" + str(failing), "theorem/dependency no longer checks: %s" % failing,
                    {"broken": failing, "log": log[-3000:]}, no_input=True)
     zigzag_text_tie(ctx)
+    varint_text_tie(ctx)
     quick = ctx.tier == "quick"
     cpp_writer_layer(ctx, 60 if quick else 600)
     py_writer_layer(ctx, 80 if quick else 800)
